@@ -22,7 +22,8 @@ CONSTANTS MaxCalls,
           CapsPairs,      \* sequence of [pre, post]: capability views before / after TLS
           Prefs,          \* preferred-mechanism arguments ("" = none given)
           TLSArgs,        \* subset of BOOLEAN: values of the starttls argument
-          Reactions,      \* server reactions to a command: subset of {"OK","NO","BYE","silence"}
+          Reactions,      \* server reactions to a command: subset of {"OK","NO","BYE","silence","garbage"}
+                          \* (garbage: octets that are no reply at all; a client can only time out on them)
           OpVerbs,        \* script operations exercised
           EnabledDevs
 
